@@ -2,6 +2,13 @@ TB = ("Trusted: Lean 4.33 kernel; axioms propext/Classical.choice/Quot.sound onl
       "the go/ast extractor (T1/T2) and the Go harness (T3: drivers, simulator, canonicalisation, monitors); the statement files Props/*.lean. ")
 
 TEXTS = {
+    "C17": {
+        "text": "Kernel-checked properties of the store contract RefStore: pages of any positive limit at offsets 0,limit,2*limit.. concatenate to exactly the matching runs in creation order (newest first when descending) for every workflow selection / "
+                "order / multi-value filter combination; Latest = newest CREATED run; Store = one record per run ID + exactly one outbox entry; outbox oldest first up to the limit (none for limit <= 0); deleting one entry never affects another. "
+                "The bundled memrecordstore is tied to the contract by a differential suite (every answer of every operation compared with the compiled Lean reference; caller mutations after Store/after reads; invalid-UTF-8 Store; corpus of the five repaired defects first).",
+        "note": TB + "memrecordstore itself is not modelled in Lean: refinement is established by differential testing against the reference, which is the statement of the property.",
+        "technique": "Lean 4 proof of the reference store's laws + differential co-simulation of memrecordstore against the compiled reference",
+    },
     'C02': {
         "text": 'Kernel-checked: Transitions/IsValid/IsTerminal of the transcribed AddTransition = declared pairs for every list (order) of builder calls; validateTransition accepts exactly the declared pairs; if the updater changes anything, (current,next) is declared and the re-read record is at `current`; an undeclared destination writes nothing and fails (every fault plan); Trigger starts only at declared statuses. Whole-history status paths are checked on the implementation by a per-write monitor over simulated histories incl. re-entrant user functions. Engine model = lean/WorkflowModel/Model/Engine.lean (executable, adapter-call granularity, fault plans, user-function outcomes as parameters), tied to the code by co-simulation under the gated deterministic simulator: every observation line of every explored history must be identical; guards/tables are regenerated from source (T1), call orders are tripwires (T2). ',
         "note": TB,
@@ -84,7 +91,7 @@ TEXTS = {
 }
 
 NOT_APPLICABLE = {p: "check under construction in this session; will be claimed once its theorems and tie exist" for p in
-                  ["C01", "C11", "C17", "C18", "C19", "C20"]}
+                  ["C01", "C11", "C18", "C19", "C20"]}
 
 NOTES = ("One engine: Lean 4 model + theorems, regenerated facts (T1/T2), co-simulation (T3). ./check <id> quick|thorough; ./check replay <path>. "
          "known-findings.json lists genuine defects that are recorded rather than repaired.")
